@@ -372,8 +372,10 @@ func (x *Exec) applyContract(st *State, ct *Contract, c *callee, recv *T, args [
 		sig = c.fn.Type().(*types.Signature)
 	}
 	short := calleeShort(ct.Pkg + "." + ct.Key)
-	if ct.Assume {
-		short = calleeShort(ct.Key)
+	if c.name != "" {
+		short = calleeShort(c.name)
+	} else if c.dynKey != "" {
+		short = calleeShort(c.dynKey)
 	}
 	ord := x.callOrdinal(short)
 	env := x.calleeEnv(st, ct, sig, recv, args)
@@ -381,7 +383,8 @@ func (x *Exec) applyContract(st *State, ct *Contract, c *callee, recv *T, args [
 	// caller-side asserts anchored at this call
 	anchor := fmt.Sprintf("call:%s@%d", short, ord)
 	if top := x.topFrame().contract; top != nil {
-		for i, a := range top.Asserts[anchor] {
+		all := append(append([]*Clause(nil), top.Asserts[anchor]...), top.Asserts["call:"+short]...)
+		for i, a := range all {
 			t := x.specEval(st, a.Expr, x.bodySpecEnv(st, call))
 			x.oblige(st, fmt.Sprintf("%s/assert#%d", anchor, i+1), "assert", t.S, call)
 			st.assume(t.S)
@@ -410,6 +413,12 @@ func (x *Exec) applyContract(st *State, ct *Contract, c *callee, recv *T, args [
 		for i := 0; i < sig.Results().Len(); i++ {
 			if n := sig.Results().At(i).Name(); n != "" && n != "_" {
 				env.vars[n] = results[i]
+			}
+		}
+		if n := sig.Results().Len(); n > 0 {
+			last := sig.Results().At(n - 1)
+			if (last.Name() == "" || last.Name() == "_") && last.Type().String() == "error" {
+				env.vars["err"] = results[n-1]
 			}
 		}
 	}
@@ -1106,4 +1115,74 @@ func (x *Exec) checkChanSend(st *State, s *ast.SendStmt, v T) {
 	env := &specEnv{x: x, st: st, vars: map[string]T{"elem": v}, pkg: x.pkg}
 	t := x.specEval(st, inv.Expr, env)
 	x.oblige(st, fmt.Sprintf("chan:%s@send%d", key, x.ordinal("send:"+key)), "chan", t.S, s)
+}
+
+// applyRecvRules applies global (by element type) and unit-level (by channel
+// name) receive rules: ghost effects and facts about the received value.
+func (x *Exec) applyRecvRules(st *State, ce ast.Expr, ch T, v T, elem types.Type) {
+	var rules []*RecvRule
+	for _, r := range x.prog.recvRules {
+		pkg := x.prog.pkgByPath(r.Pkg)
+		t, _ := x.prog.resolveSpecType(x.d, pkg, r.ElemType)
+		if t != nil && types.Identical(t, elem) {
+			rules = append(rules, r)
+		}
+	}
+	if ct := x.frame().contract; ct != nil {
+		name := x.chanKey(ce)
+		for _, r := range ct.RecvFrom {
+			if r.ChanName == name {
+				rules = append(rules, r)
+			}
+		}
+	}
+	if top := x.topFrame().contract; top != nil && top != x.frame().contract {
+		name := x.chanKey(ce)
+		for _, r := range top.RecvFrom {
+			if r.ChanName == name {
+				rules = append(rules, r)
+			}
+		}
+	}
+	for _, r := range rules {
+		old := st.clone()
+		for _, g := range r.Modifies {
+			cur := x.ghostGet(st, g)
+			nm := x.d.freshName("G_" + g)
+			x.d.declareConst(nm, x.ghostSort(g))
+			st.ghost[g] = T{S: nm, Ty: cur.Ty}
+		}
+		env := &specEnv{x: x, st: st, old: old, vars: map[string]T{"ch": ch, "elem": v}, pkg: x.prog.pkgByPath(r.Pkg)}
+		st.assume(x.specEval(st, r.Expr, env).S)
+	}
+}
+
+// recvModifies: ghosts modified by receive rules applicable to this receive.
+func (x *Exec) recvModifies(u *ast.UnaryExpr, m *modSet) {
+	ct, _ := x.typeOf(u.X).Underlying().(*types.Chan)
+	if ct == nil {
+		return
+	}
+	for _, r := range x.prog.recvRules {
+		pkg := x.prog.pkgByPath(r.Pkg)
+		t, _ := x.prog.resolveSpecType(x.d, pkg, r.ElemType)
+		if t != nil && types.Identical(t, ct.Elem()) {
+			for _, g := range r.Modifies {
+				m.ghost[g] = true
+			}
+		}
+	}
+	name := x.chanKey(u.X)
+	for _, c := range []*Contract{x.frame().contract, x.topFrame().contract} {
+		if c == nil {
+			continue
+		}
+		for _, r := range c.RecvFrom {
+			if r.ChanName == name {
+				for _, g := range r.Modifies {
+					m.ghost[g] = true
+				}
+			}
+		}
+	}
 }
